@@ -85,6 +85,16 @@ func runC11(r *vfw.Run) {
 		return seamrt.GoNever
 	}
 	o := scen.Opts{MinIdent: 3, MaxIdent: 16, CeremonySoon: r.Choose("c11.ceremony", 2) == 0}
+	// some runs over a large state: the snapshot archive then has several blocks (the archive is written in blocks of
+	// 10000 tree nodes, and the importer flushes to the database every 10000 nodes)
+	bigEvery := 8
+	if r.Tier == "thorough" {
+		bigEvery = 4
+	}
+	if r.Choose("c11.bigstate", bigEvery) == 0 {
+		o.BulkAccounts = 5200 + r.Choose("c11.bulk", 4)*1500
+		r.Probe("large_state_run")
+	}
 	lr := newLedgerRun(r, o, 18, 30)
 	s := lr.s
 	defer s.Close()
@@ -160,7 +170,7 @@ func c11Join(r *vfw.Run, lr *ledgerRun, P *simnode.Node, manifest *snapshot.Mani
 		switch kind {
 		case 4:
 			byz = "archive-byte-flip"
-			data[arg%len(data)] ^= byte(1 << uint(arg%8))
+			data[int(uint64(arg)*uint64(len(data))>>16)%len(data)] ^= byte(1 << uint(arg%8))
 		case 5:
 			byz = "archive-byte-flip-in-first-block"
 			off := 512 + arg%imin(len(data)-512, 2048)
@@ -169,10 +179,10 @@ func c11Join(r *vfw.Run, lr *ledgerRun, P *simnode.Node, manifest *snapshot.Mani
 			}
 		case 6:
 			byz = "archive-truncated"
-			data = data[:arg%len(data)]
+			data = data[:int(uint64(arg)*uint64(len(data))>>16)%len(data)]
 		case 7:
 			byz = "archive-truncated-at-512-boundary"
-			data = data[:(arg%(len(data)/512+1))*512]
+			data = data[:(int(uint64(arg)*uint64(len(data)/512+1)>>16)%(len(data)/512+1))*512]
 		case 8:
 			byz = "archive-trailing-garbage"
 			data = append(data, bytes.Repeat([]byte{byte(arg)}, 1+arg%2000)...)
